@@ -11,7 +11,8 @@ import sys
 
 pid = sys.argv[1]
 name = sys.argv[2] if len(sys.argv) > 2 else pid + "-a"
-src = "/tmp/mut/%s.out" % pid
+MUT = os.environ.get("MUTDIR", "/tmp/mut")
+src = "%s/%s.out" % (MUT, pid)
 wt = "/tmp/sv_%s" % pid
 env = dict(os.environ, GOFLAGS="-mod=mod", GOPROXY="off")
 
@@ -32,17 +33,17 @@ try:
     demo_cmd = open(os.path.join(src, "demo_cmd.txt")).read().strip().split("\n")
     demo_cmd = [l for l in demo_cmd if l.strip() and not l.strip().startswith("#")]
     demo_cmd = " && ".join(demo_cmd)
-    demo_cmd = re.sub(r"cd /tmp/mut/C\d\d\s*(&&|;)", "", demo_cmd)
-    demo_cmd = demo_cmd.replace("/tmp/mut/%s" % pid, wt)
+    demo_cmd = re.sub(r"cd /tmp/mut2?/C\d\d\s*(&&|;)", "", demo_cmd)
+    demo_cmd = demo_cmd.replace("%s/%s" % (MUT, pid), wt)
     demos = [f for f in os.listdir(src) if f.endswith("_test.go") or (f.endswith(".go") and "demo" in f)]
     # where do the demo files go? take the location from the agent's worktree
     placed = []
     for d in demos:
-        out = subprocess.run("find /tmp/mut/%s -name %s -not -path '*/.git/*'" % (pid, d), shell=True, capture_output=True, text=True).stdout.strip().split("\n")
+        out = subprocess.run("find %s/%s -name %s -not -path '*/.git/*'" % (MUT, pid, d), shell=True, capture_output=True, text=True).stdout.strip().split("\n")
         out = [o for o in out if o]
         if not out:
             print("cannot locate demo file", d); sys.exit(1)
-        rel = os.path.relpath(out[0], "/tmp/mut/%s" % pid)
+        rel = os.path.relpath(out[0], "%s/%s" % (MUT, pid))
         shutil.copy(os.path.join(src, d), os.path.join(wt, rel))
         placed.append(rel)
     rc0, out0 = sh(demo_cmd)
